@@ -319,7 +319,7 @@ fn eval(c: &Case, offered_ops: &BTreeSet<String>) -> (Vec<Failure>, bool) {
 }
 
 /// Operator names in the lexer's own table, read from its source at run time.
-fn names_in_lexer_source() -> Vec<String> {
+pub fn names_in_lexer_source() -> Vec<String> {
     let src = std::fs::read_to_string("/repo/crates/syntax/src/lexer.rs").unwrap_or_default();
     let mut out = Vec::new();
     for line in src.lines() {
